@@ -1,5 +1,6 @@
 import SuccinctlyVerif.Spec.YamlScalar
 import SuccinctlyVerif.Model.YamlEmit
+import SuccinctlyVerif.Model.YamlAnchor
 import Driver.Util
 namespace SV.Drv.C15
 open SV SV.Drv SV.Yaml SV.Yaml.Emit
@@ -44,6 +45,36 @@ def ctxKey (flow top : Bool) : Ctx := if flow then .flowKey else .blockKey top
 def srcStyleOf (s : String) : SrcStyle :=
   if s == "d" then .doubleQuoted else if s == "s" then .singleQuoted
   else if s == "u" then .unquoted else .block
+
+instance : Inhabited Anchor.Forest := ⟨.nil⟩
+
+/-- Forest encoding `N<label>.<n|d<name>|a<name>>.<payload>[children]…` (see the harness). -/
+partial def parseNodes (cs : List Char) : Anchor.Forest × List Char :=
+  let num (cs : List Char) : Nat × List Char :=
+    let ds := cs.takeWhile Char.isDigit
+    (ds.foldl (fun a c => a * 10 + (c.toNat - 48)) 0, cs.dropWhile Char.isDigit)
+  match cs with
+  | 'N' :: r =>
+    let (label, r) := num r
+    let r := r.drop 1
+    let (mark, r) : Anchor.Mark × List Char :=
+      match r with
+      | 'd' :: r' => let (n, r'') := num r'; (.declares n, r'')
+      | 'a' :: r' => let (n, r'') := num r'; (.aliases n, r'')
+      | _ :: r' => (.none, r')
+      | [] => (.none, [])
+    let r := r.drop 1
+    let (payload, r) := num r
+    let r := r.drop 1
+    let (children, r) := parseNodes r
+    let r := r.drop 1
+    let (rest, r) := parseNodes r
+    (.cons label mark payload children rest, r)
+  | _ => (.nil, cs)
+
+def evStr : Anchor.Ev → String
+  | .decl n _ => s!"&{n}"
+  | .alias n _ => s!"*{n}"
 
 /-- Answers of the model.  Wherever the request asks for a re-read verdict the driver prints what
 the property demands (`REREAD-OK` / `LOOP-OK`); the harness prints what the real loader did. -/
@@ -103,6 +134,14 @@ def exec (a : List String) : String :=
   | ["ind", n] =>
     let n := parseNat n
     s!"dom={domIndentWidth rev n} stream={streamIndentWidth n}"
+  | ["anc", enc] =>
+    let f := (parseNodes enc.toList).1
+    let eqv : Anchor.Forest → Anchor.Forest → Bool := fun a b => a == b
+    let evs := Anchor.emit (Anchor.enforce eqv f)
+    let toks := if evs.isEmpty then "-" else ",".intercalate (evs.map evStr)
+    -- `alias_sound`: sound whenever no mark lies below an alias node; otherwise computed
+    let ok := Anchor.aliasOpaque f || Anchor.sound eqv evs
+    s!"{toks} {if ok then "SOUND" else "UNSOUND"}"
   | ["sloop", _doc, _ind] => "LOOP-OK"
   | ["cli", _doc, _prog, _ind] => "LOOP-OK"
   | _ => "BAD-OP"
